@@ -48,6 +48,17 @@ FIXED = [
     ("C05", "C05/gopher-selector-has-spartan-request-shape", "2a6e19d",
      "gopher selector '/a b 12' (two blanks, trailing number) followed from the Gopher menu was claimed by Spartan "
      "and answered '4 not found' (also C02)"),
+    ("C06", "C06/search-string-altered:http+wap:non-utf8", "1c7f70b",
+     "HTTP/WAP searchrequest with bytes that are not UTF-8 reached the handler as U+FFFD (parse_qs errors=replace)"),
+    ("C07", "C07/order-depends-on-enumeration:several-link-files", "eb5714f",
+     "two link files in one directory: merged names and order of tied entries depended on os.listdir order"),
+    ("C08", "C08/extra-entry:link-of-hidden-type", "313b08d",
+     "'Path=./name' + 'Type=-' was displayed (type '-' transmitted); new link entries of type X or - were displayed"),
+    ("C09", "C09/listing-failed:gopherp", "1f565af",
+     "*.gophermap file: Gopher+ length header was the file size, HTTP Content-Type text/plain for an HTML listing "
+     "(also C03, C04, C06, C15)"),
+    ("C09", "C09/protocols-disagree:http", "57c681e",
+     "entry with a host but no port: Gopher defaults to the server's port, HTTP/Gemini/Spartan hard-coded 70 (also C06)"),
 ]
 
 KNOWN = [
